@@ -523,7 +523,8 @@ class The(ResultQuantifier[T]):
                 result = sources
             else:
                 raise NoSolutionFound(self._child_)
-        else:
+        elif self._var_:
+            # only a query over a single selected variable behaves like that variable (as in An).
             result[self._id_] = result[self._var_._id_]
         return result
 
